@@ -118,6 +118,12 @@ fn parse_argtype(t: &str) -> Option<ArgumentType> {
         "expref" => ArgumentType::Expref,
         "an" => ArgumentType::TypedArray(Box::new(ArgumentType::Number)),
         "as" => ArgumentType::TypedArray(Box::new(ArgumentType::String)),
+        "aan" => ArgumentType::TypedArray(Box::new(ArgumentType::TypedArray(Box::new(ArgumentType::Number)))),
+        "ans" => ArgumentType::TypedArray(Box::new(ArgumentType::Union(vec![ArgumentType::Number, ArgumentType::String]))),
+        "aany" => ArgumentType::TypedArray(Box::new(ArgumentType::Any)),
+        "aaa" => ArgumentType::TypedArray(Box::new(ArgumentType::Array)),
+        "uns" => ArgumentType::Union(vec![ArgumentType::Number, ArgumentType::String]),
+        "uao" => ArgumentType::Union(vec![ArgumentType::TypedArray(Box::new(ArgumentType::Number)), ArgumentType::Object]),
         _ => return None,
     })
 }
